@@ -213,7 +213,9 @@ def run_case(inp: dict) -> list[dict]:
             cause = "other"
             if order == 0 and not cs:
                 x0 = np.trunc(p_used - np.array(shape) / 2)
-                lost = np.any(coords > (x0 + np.array(shape))[:, None] + 1e-9, axis=0)
+                # the window is [x0, x0 + s]: a coordinate at (floating-point rounding decides) or beyond
+                # its last index is filled by scipy's mode="constant"
+                lost = np.any(coords > (x0 + np.array(shape))[:, None] - 1e-6, axis=0)
                 if np.all(lost[bad]):
                     cause = "order0-window"
             elif order == 0 and cs:
@@ -222,7 +224,7 @@ def run_case(inp: dict) -> list[dict]:
                 Lf = float(np.sqrt(np.sum(np.asarray(shape, dtype=np.float32) ** 2)))
                 x0 = np.trunc(p_used - Lf / 2)
                 last = np.trunc(x0 + Lf + 1) - 1
-                lost = np.any((coords > last[:, None] + 1e-9) | (coords < x0[:, None] - 1e-9), axis=0)
+                lost = np.any((coords > last[:, None] - 1e-6) | (coords < x0[:, None] + 1e-6), axis=0)
                 if np.all(lost[bad]):
                     cause = "order0-window"
             inp2 = dict(inp, cause=cause)
